@@ -977,7 +977,7 @@ class Machine(object):
             st.effects.append(("call", sname, arg_labels, loc(t)))
             for a in args:
                 if isinstance(a, Ref) and a.mut:
-                    self.bump(a)
+                    self.bump(a, havoc=sname)
         l = ("call", sname, arg_labels)
         if self.alias is not None:
             l = self.alias(l)
@@ -1140,7 +1140,7 @@ class Machine(object):
                 return AdtVal("std::result::Result", 1, {0: Cell(Opaque(("from", lab(self.field_cell(a, 0, None, None).val))))}, None, "Err")
         return None
 
-    def bump(self, ref):
+    def bump(self, ref, havoc=None):
         if isinstance(ref, Ref):
             c = ref.cell
             while isinstance(c.val, Ref):
@@ -1153,6 +1153,9 @@ class Machine(object):
                     n = l[2] + 1
                     l = l[1]
                 c.val = Opaque(("mut", l, n), v.ty)
+            elif isinstance(v, (VecVal, AdtVal)) and havoc is not None:
+                # a known value handed out by &mut to an unknown callee is no longer known
+                c.val = Opaque(("havoc", havoc, lab(v)))
 
 
 def base_label(l):
